@@ -125,7 +125,7 @@ Definition mstep (c : cfg) (m : mon) (o : op) (r : out) : verdict * mon :=
                 (negb (tracked m) || (mv <? dist m), t_moveback_range);
                 (negb (tracked m) || negb contract || (att m <? dist m - mv), t_moveback_range);
                 ((ch' + mv) mod num_channels =? mch m, t_in_step);
-                (t' + mv * iv =? mt m, t_time_in_step);
+                (negb (mv * iv <? two32) || (t' + mv * iv =? mt m), t_time_in_step);
                 (match l with Some x => x =? 1 | None => true end, t_skip_recorded) ]
               (mkm c' ch' t' 0 (dist m - mv) (if contract then att m else 0) (tracked m) (mcur m) false) m
       else
@@ -142,7 +142,7 @@ Definition mstep (c : cfg) (m : mon) (o : op) (r : out) : verdict * mon :=
       judge [ (ll_shape c l && in_range c' ch' t', t_shape);
               ((count <=? 0)%Z && (mv <=? max_latency), t_shape);
               ((c' =? (mc m + two16 - mv) mod two16) && ((ch' + mv) mod num_channels =? mch m), t_in_step);
-              (t' + mv * iv =? mt m, t_time_in_step) ]
+              (negb (mv * iv <? two32) || (t' + mv * iv =? mt m), t_time_in_step) ]
             (mkm c' ch' t' (budget m) (dist m - mv) (att m) (tracked m && (mv =? 0)) (mcur m) false) m
   | Move count iv0, OFault =>
       let iv := iv0 mod two32 in
